@@ -35,7 +35,7 @@ pub trait SocketIo {
             final(cx).spec_waker() == old(cx).spec_waker(),
             final(self).accepted() == old(self).accepted(),
             match r {
-                Poll::Ready(Ok(n)) => final(buf)@.len() == old(buf)@.len() + n && buf_extends(old(buf)@, final(buf)@) && (n == 0 ==> final(self).peer_gone()) && (n > 0 ==> final(self).peer_gone() == old(self).peer_gone())
+                Poll::Ready(Ok(n)) => final(buf)@.len() == old(buf)@.len() + n && buf_extends(old(buf)@, final(buf)@) && (n == 0 && old(buf)@.len() < old(buf).spec_capacity() ==> final(self).peer_gone()) /* with no spare capacity tokio_util returns Ok(0) without reading: that is NOT end of stream */ && (n > 0 ==> final(self).peer_gone() == old(self).peer_gone())
                     && old(buf)@.len() + n <= old(buf).spec_capacity() && final(buf).spec_capacity() == old(buf).spec_capacity(),
                 Poll::Ready(Err(e)) => final(buf)@ == old(buf)@ && e.spec_kind() != io::ErrorKind::WouldBlock /* AsyncRead contract: not-ready is Pending, never a WouldBlock error */
                     && (e.spec_kind() == io::ErrorKind::ConnectionReset ==> final(self).peer_gone()) && (e.spec_kind() != io::ErrorKind::ConnectionReset ==> final(self).peer_gone() == old(self).peer_gone()),
